@@ -207,6 +207,26 @@ def c11_obligations(tier, seed):
     ]
 
 
+def c10_obligations(tier, seed):
+    MGR = "akd/src/storage/manager/mod.rs"
+    txn = dict([o for o in c15_obligations(tier, seed) if o["id"] == "C15.txn_log"][0])
+    txn["id"] = "C10.txn_log"
+    txn["claim"] = "the transaction log itself: rollback discards every pending record and closes the transaction; commit drains the log and closes it; refused operations change nothing (same obligation as C15.txn_log)"
+    return [
+        {"id": "C10.commit_step", "engine": "mir", "kind": "commit",
+         "claim": "StorageManager::commit_transaction drains the transaction log before anything else on every path (no transaction is left open); on every path on which the database write "
+                  "does not succeed the records of the commit are not left in the object cache (not put, or flushed afterwards); it returns Ok only for an empty log or a successful write and Err "
+                  "whenever the write failed; what is written to the database (state TransactionCommit) and put into the cache is the vector the log returned",
+         "functions": [MGR + "::commit_transaction"], "width": 64,
+         "bound": "every path of the coroutine from its initial state: cache present or absent, log empty or not, last record an epoch record or not, log commit and database write each Ok or Err; "
+                  "every await completes; the function has no loop",
+         "query_cap_s": 120, "cap_s": (600, 600), "stubs": [], "role": "commit_step", "instantiation": "generic MIR (any Database)",
+         "assumes": ["callees are opaque events: Transaction::commit_transaction (decided by C10.txn_log), TimedCache::{enable_clean, batch_put, flush}, Database::batch_set (fails as a whole or succeeds)",
+                     "read failures during a publish, the rollback calls in Directory::publish and everything a later publish does are outside this kernel"]},
+        txn,
+    ]
+
+
 def c15_obligations(tier, seed):
     wf = "well-formed data for one user: epochs strictly increase within committed (<=3) and within pending (<=2) states, versions "          "increase with epochs across both, a pending record for an already committed epoch keeps its version"
     return [
@@ -454,6 +474,9 @@ PROPERTIES = {
                             "decided for the verifiers under C06/C07)",
                             "no well-formed tree admits both a membership and a non-membership proof of one label (C05, within its bounds)", STD_TRUST],
             "outside_claim": ["epochs >= 2^W for the stated width W", "malformed (non-canonical) trees: out of scope of the property's quantifier (leaf sets in a canonical trie)"]},
+    "C10": {"obligations": c10_obligations, "jobs": 2, "assumptions": [KERNEL_ONLY],
+            "outside_claim": ["storage READ failures during a publish", "Directory::publish's own error handling (rollback on insertion failure)", "the equality of the state after a later publish with the state of a run without the failure "
+                              "(exercised by the native battery native_commitfail only when a counterexample has to be confirmed)", "partial database writes (the property's fault model is the commit write failing as a whole)"]},
     "C13": {"obligations": c13_obligations, "jobs": 2, "assumptions": [KERNEL_ONLY],
             "outside_claim": ["interleavings with publishes, the change poller, cache flushes; history generation re-reading the epoch record"]},
     "C11": {"obligations": c11_obligations, "jobs": 2, "assumptions": [KERNEL_ONLY],
